@@ -1073,6 +1073,8 @@ class VC:
             return _UNBOUND
         v = loc[name]
         c = ctx()
+        if v is _UNBOUND:
+            return _UNBOUND
         if isinstance(v, bool):
             return c.decide(z3.Bool(f"{name}!{next(c.fresh)}"), f"{name} after some iterations")
         if isinstance(v, Rv):
